@@ -199,7 +199,8 @@ def self_test(repo):
             os.makedirs(os.path.dirname(os.path.join(d, r)), exist_ok=True)
             shutil.copy(os.path.join(repo, r), os.path.join(d, r))
         p = os.path.join(d, PCA)
-        open(p, "w").write(open(p).read().replace("mean_vector", "mu"))
+        text = open(p).read().replace("mean_vector", "mu")
+        open(p, "w").write(text)
         same = emit(parse(d)) == base
         print("self-test: renaming a local leaves the table unchanged -> %s" % ("ok" if same else "CHANGED"))
         ok = ok and same
